@@ -256,7 +256,7 @@ def _simultaneous_subs(expr, sub):
     tmp = {}
     back = {}
     for i, (a, v) in enumerate(sub.items()):
-        ph = ("s", "__ph%d" % i)
+        ph = ("f", "__ph%d" % i, ())      # a field-like atom: no sign is assumed for it
         tmp[a] = Poly.atom(ph)
         back[ph] = v
     return expr.subs(tmp).subs(back)
